@@ -41,7 +41,6 @@ K("awkward_reduce_countnonzero",
   serves=["C03", "C12", "C13"])
 
 for name in ["awkward_reduce_prod",
-             "awkward_reduce_sum_int32_bool_64", "awkward_reduce_sum_int64_bool_64",
              "awkward_reduce_prod_int32_bool_64", "awkward_reduce_prod_int64_bool_64"]:
     K(name,
       extents={"toptr": "outlength", "fromptr": "lenparents", "parents": "lenparents"},
